@@ -665,7 +665,14 @@ def string_fragment(report, uri_consts, shape_consts):
             ("shexer/utils/uri.py", None, 'unprefixize_uri_mandatory', 'unprefixize_uri_mandatory',
              {'target_uri': 'str', 'prefix_namespaces_dict': 'strdict', 'include_corners': 'bool'}, 'str'),
             ("shexer/utils/uri.py", None, 'prefixize_uri_if_possible', 'prefixize_uri_if_possible',
-             {'target_uri': 'str', 'namespaces_prefix_dict': 'strdict', 'corners': 'bool'}, 'str')]
+             {'target_uri': 'str', 'namespaces_prefix_dict': 'strdict', 'corners': 'bool'}, 'str'),
+            # methods of one class: the attribute they read is a leading parameter, calls between them are monadic calls
+            ("shexer/io/shape_map/label/shape_map_label_parser.py", 'ShapeMapLabelParser', '_is_a_prefixed_uri', 'label_is_a_prefixed_uri',
+             {'self._namespaces_prefix_dict': 'strdict', 'raw_label': 'str'}, 'bool'),
+            ("shexer/io/shape_map/label/shape_map_label_parser.py", 'ShapeMapLabelParser', '_parse_prefixed_label', 'label_parse_prefixed_label',
+             {'self._namespaces_prefix_dict': 'strdict', 'raw_label': 'str'}, 'str'),
+            ("shexer/io/shape_map/label/shape_map_label_parser.py", 'ShapeMapLabelParser', 'parse_shape_map_label', 'parse_shape_map_label',
+             {'self._namespaces_prefix_dict': 'strdict', 'raw_label': 'str'}, 'str')]
     funcs = {}
     for rel, cls, pyname, lname, types, ret in jobs:
         try:
@@ -679,7 +686,11 @@ def string_fragment(report, uri_consts, shape_consts):
                         and isinstance(node.value.args[0].value, str) and re.fullmatch(r"\[[^\]\\^\-\[]+\]", node.value.args[0].value):
                     local[node.targets[0].id] = ('charclass', node.value.args[0].value[1:-1])
             local.update(funcs.get(rel, {}))
-            if XS.translate(out, report, assumptions, 'S.' + lname, fn, types, ret, local) and cls is None and ret in ('str', 'bool', 'int') \
+            local.update(funcs.get((rel, cls), {}))
+            ok_tr = XS.translate(out, report, assumptions, 'S.' + lname, fn, types, ret, local)
+            if ok_tr and cls is not None and ret in ('str', 'bool', 'int') and "(resolve :" not in out[-1]:
+                funcs.setdefault((rel, cls), {})['self.' + pyname] = ('func', lname, [(a.arg, types[a.arg]) for a in fn.args.args if a.arg != 'self'], ret, {})
+            if ok_tr and cls is None and ret in ('str', 'bool', 'int') \
                     and "(resolve :" not in out[-1] and all(t in ('str', 'bool', 'int') for t in types.values()):
                 nd = len(fn.args.defaults)
                 dflt = {a.arg: d for a, d in zip(fn.args.args[len(fn.args.args) - nd:], fn.args.defaults)
